@@ -1,4 +1,333 @@
-import ScVerif.C01.Model
+import ScVerif.C01.Outcome
+import ScVerif.C01.Flat
+/-!
+# C01 — property theorems
+
+Property (fixed text): "Used by one caller at a time, a Value behaves as a single message register and
+a Collection as an id-to-message map: for every sequence of Get, List, Set, Add, Update and Delete
+calls with any combination of write options (update and reset masks, expected value or check,
+expect-absent, create-if-absent, allow-missing, generated ids, id interceptor, before/after
+interceptors, write time) each call returns what a plain reference model returns and leaves the same
+contents. A call that fails (precondition, not found, already exists, invalid mask) changes nothing
+and emits nothing. List is sorted by id, and a generated id is non-empty, unused, reported once
+through the id callback and usable for later Get/Update/Delete."
+
+Model: `Model.lean` (follows `pkg/resource`); reference: `Spec.lean` (register / function map, one step
+per call).  All theorems are for EVERY message type and message operations (`MsgOps`), every
+configuration, every option record, arbitrary interceptors / checks / include predicates / id
+interceptor / rng, and every finite call sequence.  The one hypothesis on the message operations,
+`EqRefl` (`proto.Equal m m`), is what the code's re-validation really needs.
+
+Only property theorems and their non-vacuity examples live in this file.
+-/
 namespace ScVerif.C01
-theorem C01_placeholder_true : eqOpt (M := Nat) (K := Nat) ⟨0, fun a b => a == b, fun a _ => a, fun _ _ => none, fun _ _ s => s, fun _ m => m⟩ none none = true := rfl
+variable {M K R : Type}
+
+/-- Value ⊑ register: every call sequence returns exactly the reference's results (values, codes,
+events) and ends in the same state. -/
+theorem C01_value_refines (cfg : Cfg M K R) (h : EqRefl cfg.ops) (ops : List (VOp M K)) :
+    ∀ s : VState M, Value.run cfg s ops = Spec.vrun cfg s ops := by
+  induction ops with
+  | nil => intro s; rfl
+  | cons op ops ih =>
+    intro s
+    cases op with
+    | get ro => simp only [Value.run, Spec.vrun, Value.step, Spec.vstep, Value.get, ih]
+    | set msg wr => simp only [Value.run, Spec.vrun, Value.step, Spec.vstep, value_set_eq cfg h, ih]
+
+/-- Collection ⊑ map: from ANY initial records, every call sequence is a run of the reference map:
+each call returns the reference's result (value, code, events, callback invocations; for List: the
+strictly id-sorted projection of the included entries) and leaves the reference's contents. -/
+theorem C01_collection_refines (cfg : Cfg M K R) (h : EqRefl cfg.ops) (records : List (String × M)) (rng : R)
+    (ops : List (COp M K)) :
+    Spec.Run cfg (abs (Coll.init cfg records rng)) ops
+      (Coll.run cfg (Coll.init cfg records rng) ops).1
+      (abs (Coll.run cfg (Coll.init cfg records rng) ops).2) :=
+  run_refines cfg h ops _ (nodupKeys_init cfg records rng)
+
+/-- A failing Update/Add changes nothing (the contents as a map are the same) and emits nothing. -/
+theorem C01_failed_update_frame (cfg : Cfg M K R) (h : EqRefl cfg.ops) (s : CState M R) (id : String) (msg : M)
+    (wr : WriteReq M K) (hf : (Coll.update cfg s id msg wr).1.err ≠ none) :
+    lookup (Coll.update cfg s id msg wr).2.items = lookup s.items ∧
+    (Coll.update cfg s id msg wr).2.clock = s.clock ∧
+    (Coll.update cfg s id msg wr).1.events = [] ∧ (Coll.update cfg s id msg wr).1.val = none := by
+  have he := coll_update_eq cfg h s id msg wr
+  have hm : lookup (Coll.update cfg s id msg wr).2.items = (abs (Coll.update cfg s id msg wr).2).m := rfl
+  have hc : (Coll.update cfg s id msg wr).2.clock = (abs (Coll.update cfg s id msg wr).2).clock := rfl
+  rw [he.1] at hf ⊢
+  rw [hm, hc, he.2]
+  have ho := spec_update_outcome cfg (abs s) id msg wr
+  generalize Spec.update cfg (abs s) id msg wr = r at hf ho
+  cases ho with
+  | invalid c _ => exact ⟨rfl, rfl, rfl, rfl⟩
+  | exhausted rng' _ _ _ => exact ⟨rfl, rfl, rfl, rfl⟩
+  | alreadyExists id1 calls t1 it _ hr _ _ => exact ⟨hr.m_eq.1, hr.m_eq.2, rfl, rfl⟩
+  | precondition id1 calls t1 it c _ hr _ _ _ => exact ⟨hr.m_eq.1, hr.m_eq.2, rfl, rfl⟩
+  | notFound id1 calls t1 _ hr _ _ => exact ⟨hr.m_eq.1, hr.m_eq.2, rfl, rfl⟩
+  | createFailed id1 calls t1 c _ hr _ _ _ => exact ⟨hr.m_eq.1, hr.m_eq.2, rfl, rfl⟩
+  | updated id1 calls t1 it new _ _ _ _ _ =>
+    exfalso; apply hf; unfold Spec.commit; cases wr.writeTime <;> rfl
+  | created id1 calls t1 new _ _ _ _ _ =>
+    exfalso; apply hf; unfold Spec.commit; cases wr.writeTime <;> rfl
+
+/-- A failing Delete changes nothing and emits nothing. -/
+theorem C01_failed_delete_frame (cfg : Cfg M K R) (h : EqRefl cfg.ops) (s : CState M R) (id : String)
+    (wr : WriteReq M K) (hf : (Coll.delete cfg s id wr).1.err ≠ none) :
+    (Coll.delete cfg s id wr).2 = s ∧ (Coll.delete cfg s id wr).1.events = [] := by
+  unfold Coll.delete at hf ⊢
+  rw [deleteLoop_first cfg h] at hf ⊢
+  revert hf
+  cases lookup s.items (icptId cfg id) with
+  | none => intro _; simp only []; split <;> exact ⟨rfl, rfl⟩
+  | some it =>
+    simp only []
+    cases wr.expectedCheck with
+    | none =>
+      cases wr.expectedValue with
+      | none => intro hf; simp at hf
+      | some ev => cases hq : cfg.ops.eq it.body ev <;> simp [hq]
+    | some chk =>
+      cases hc : chk (some it.body) with
+      | some e => simp [hc]
+      | none =>
+        cases wr.expectedValue with
+        | none => intro hf; simp [hc] at hf
+        | some ev => cases hq : cfg.ops.eq it.body ev <;> simp [hc, hq]
+
+/-- A failing Set leaves the Value exactly as it was (value, change time, clock) and emits nothing. -/
+theorem C01_failed_set_frame (cfg : Cfg M K R) (h : EqRefl cfg.ops) (s : VState M) (msg : M)
+    (wr : WriteReq M K) (hf : (Value.set cfg s msg wr).1.err ≠ none) :
+    (Value.set cfg s msg wr).2 = s ∧ (Value.set cfg s msg wr).1.events = [] := by
+  rw [value_set_eq cfg h] at hf ⊢
+  unfold Spec.set at hf ⊢
+  revert hf
+  simp only []
+  cases cfg.ops.validate (fieldUpdater cfg wr) msg with
+  | some c => intro _; exact ⟨rfl, rfl⟩
+  | none =>
+    simp only []
+    cases Spec.newValue cfg.ops wr (fieldUpdater cfg wr) msg s.value (s.value.getD cfg.ops.zero) with
+    | error c => intro _; exact ⟨rfl, rfl⟩
+    | ok new => intro hf; exfalso; apply hf; cases wr.writeTime <;> rfl
+
+/-- List on every reachable state: ids strictly increasing, and the entries are exactly the stored
+items the include predicate accepts, each projected by the read mask. -/
+theorem C01_list_sorted (cfg : Cfg M K R) (h : EqRefl cfg.ops) (records : List (String × M)) (rng : R)
+    (ops : List (COp M K)) (ro : ReadReq M K) :
+    let s := (Coll.run cfg (Coll.init cfg records rng) ops).2
+    ((Coll.listIds cfg s ro).map (·.1)).Pairwise (· < ·) ∧
+    ∀ id v, (id, v) ∈ Coll.listIds cfg s ro ↔
+      ∃ it, lookup s.items id = some it ∧ excluded ro id it.body = false ∧
+        v = cfg.ops.filter ro.readMask it.body := by
+  intro s
+  have hn : NodupKeys s.items := by
+    have : ∀ (ops : List (COp M K)) (s0 : CState M R), NodupKeys s0.items →
+        NodupKeys (Coll.run cfg s0 ops).2.items := by
+      intro ops
+      induction ops with
+      | nil => intro s0 h0; exact h0
+      | cons op ops ih => intro s0 h0; simp only [Coll.run]; exact ih _ (step_nodup cfg h s0 op h0)
+    exact this ops _ (nodupKeys_init cfg records rng)
+  exact coll_list_spec cfg s ro hn
+
+/-- Generated ids. A successful Update/Add that was given the empty id with `WithGenIDIfAbsent`:
+the id `id'` under which the item is stored and announced was not a key before, is reported
+through the id callback exactly once (when one is registered), and the item just written is stored
+under it.  If the id interceptor is idempotent on `id'`, `Get id'` returns the value just written (and
+`Update`/`Delete`, which resolve ids the same way, reach the same item); if it maps non-empty ids to
+non-empty ids, `id'` is non-empty. -/
+theorem C01_genid (cfg : Cfg M K R) (h : EqRefl cfg.ops) (s : CState M R) (id : String) (msg : M)
+    (wr : WriteReq M K)
+    (hgen : icptId cfg id = "" ∧ wr.genEmptyID = true)
+    (hok : (Coll.update cfg s id msg wr).1.err = none) :
+    ∃ id' new,
+      (Coll.update cfg s id msg wr).1.val = some new ∧
+      (∃ t, (Coll.update cfg s id msg wr).1.events = [{ id := id', time := t, kind := .add, old := none, new := some new }]) ∧
+      lookup s.items id' = none ∧
+      (Coll.update cfg s id msg wr).1.idCalls = (if wr.idCb then [id'] else []) ∧
+      (lookup (Coll.update cfg s id msg wr).2.items id').map (·.body) = some new ∧
+      (icptId cfg id' = id' →
+        Coll.get cfg (Coll.update cfg s id msg wr).2 id' {} = some (cfg.ops.filter none new)) ∧
+      ((∀ x, x ≠ "" → icptId cfg x ≠ "") → id' ≠ "") := by
+  have he := coll_update_eq cfg h s id msg wr
+  have hm : ∀ k, lookup (Coll.update cfg s id msg wr).2.items k = (abs (Coll.update cfg s id msg wr).2).m k :=
+    fun _ => rfl
+  unfold Coll.get
+  simp only [hm]
+  rw [he.1] at hok ⊢
+  rw [he.2]
+  have hg : (icptId cfg id = "" && wr.genEmptyID) = true := by simp [hgen.1, hgen.2]
+  have ho := spec_update_outcome cfg (abs s) id msg wr
+  generalize Spec.update cfg (abs s) id msg wr = r at hok ho
+  -- the only successful outcome of a generating call is `created`
+  have hres : ∀ id1 calls t1, Resolved cfg (abs s) id wr id1 calls t1 →
+      ∃ rng', genID cfg (usedIn s.items) s.rng = (some id1, rng') ∧
+        calls = (if wr.idCb then [id1] else []) ∧ t1 = { abs s with rng := rng' } := by
+    intro id1 calls t1 hr
+    rcases hr with ⟨hf, _⟩ | ⟨_, rng', h1, h2, h3⟩
+    · rw [hg] at hf; cases hf
+    · exact ⟨rng', h1, h2, h3⟩
+  cases ho with
+  | invalid c _ => cases hok
+  | exhausted rng' _ _ _ => cases hok
+  | alreadyExists id1 calls t1 it _ hr _ _ => cases hok
+  | precondition id1 calls t1 it c _ hr _ _ _ => cases hok
+  | notFound id1 calls t1 _ hr _ _ => cases hok
+  | createFailed id1 calls t1 c _ hr _ _ _ => cases hok
+  | updated id1 calls t1 it new _ hr hl _ _ =>
+    obtain ⟨rng', hgn, _, _⟩ := hres _ _ _ hr
+    have := genID_some cfg _ _ _ _ hgn
+    have hl' : lookup s.items id1 = some it := hl
+    simp [usedIn, hl'] at this
+  | created id1 calls t1 new _ hr hl _ _ =>
+    obtain ⟨rng', hgn, hcalls, ht1⟩ := hres _ _ _ hr
+    refine ⟨id1, new, ?_, ?_, hl, ?_, ?_, ?_, ?_⟩
+    · unfold Spec.commit; cases wr.writeTime <;> rfl
+    · unfold Spec.commit; cases wr.writeTime <;> exact ⟨_, rfl⟩
+    · rw [hcalls]; unfold Spec.commit; cases wr.writeTime <;> rfl
+    · unfold Spec.commit; cases wr.writeTime <;> simp [SState.put]
+    · intro hid
+      rw [hid]
+      unfold Spec.commit; cases wr.writeTime <;> simp [SState.put]
+    · intro hne
+      unfold genID at hgn
+      rcases hloop : genLoop cfg.gen (fun cand => usedIn s.items (icptId cfg cand)) 10 0 s.rng with ⟨r, rg⟩
+      rw [hloop] at hgn
+      cases r with
+      | none => simp at hgn
+      | some c =>
+        simp only [Option.map_some, Prod.mk.injEq, Option.some.injEq] at hgn
+        rw [← hgn.1]
+        exact hne c (genLoop_some _ _ _ _ _ _ _ hloop).1
+
+/-- One caller at a time never sees the re-validation fail: `Aborted` from Update/Add comes only from
+id-generation exhaustion (ten candidates all empty or in use), or is the very code returned by the
+caller's own expected-check, or by mask validation. -/
+theorem C01_seq_never_aborts (cfg : Cfg M K R) (h : EqRefl cfg.ops) (s : CState M R) (id : String) (msg : M)
+    (wr : WriteReq M K) (ha : (Coll.update cfg s id msg wr).1.err = some .aborted) :
+    ((icptId cfg id = "" ∧ wr.genEmptyID = true) ∧ (genID cfg (usedIn s.items) s.rng).1 = none) ∨
+    (∃ chk old, wr.expectedCheck = some chk ∧ chk old = some .aborted) ∨
+    cfg.ops.validate (fieldUpdater cfg wr) msg = some .aborted := by
+  have he := coll_update_eq cfg h s id msg wr
+  rw [he.1] at ha
+  have ho := spec_update_outcome cfg (abs s) id msg wr
+  generalize Spec.update cfg (abs s) id msg wr = r at ha ho
+  have hnv : ∀ old base c, Spec.newValue cfg.ops wr (fieldUpdater cfg wr) msg old base = .error c →
+      c = .aborted → ∃ chk old, wr.expectedCheck = some chk ∧ chk old = some .aborted := by
+    intro old base c hn hc
+    subst hc
+    unfold Spec.newValue at hn
+    have hchkpart : (match (match wr.expectedCheck with | some chk => chk old | none => none) with
+          | some c => (Except.error c : Except Code M)
+          | none => Except.ok (match wr.after with
+              | some f => f old (cfg.ops.merge (fieldUpdater cfg wr) base
+                  (match wr.before with | some f => f old msg | none => msg))
+              | none => cfg.ops.merge (fieldUpdater cfg wr) base
+                  (match wr.before with | some f => f old msg | none => msg))) = Except.error Code.aborted →
+        ∃ chk old, wr.expectedCheck = some chk ∧ chk old = some .aborted := by
+      intro hn
+      cases hchk : wr.expectedCheck with
+      | none => simp [hchk] at hn
+      | some chk =>
+        simp only [hchk] at hn
+        cases hco : chk old with
+        | none => simp [hco] at hn
+        | some c' =>
+          simp only [hco, Except.error.injEq] at hn
+          exact ⟨chk, old, rfl, by rw [hco, hn]⟩
+    cases hev : wr.expectedValue with
+    | none =>
+      simp only [hev, Bool.false_eq_true, ↓reduceIte] at hn
+      exact hchkpart hn
+    | some ev =>
+      simp only [hev] at hn
+      cases hq : eqOpt cfg.ops old (some ev) with
+      | false => simp [hq] at hn
+      | true =>
+        simp only [hq, Bool.not_true, Bool.false_eq_true, ↓reduceIte] at hn
+        exact hchkpart hn
+  cases ho with
+  | invalid c hv =>
+    simp only [failOut, Option.some.injEq] at ha
+    right; right; rw [hv, ha]
+  | exhausted rng' _ hg hgen =>
+    left
+    refine ⟨by simpa using hg, ?_⟩
+    have : genID cfg (usedIn s.items) s.rng = (none, rng') := hgen
+    rw [this]
+  | alreadyExists id1 calls t1 it _ hr _ _ => simp [failOut] at ha
+  | precondition id1 calls t1 it c _ hr _ _ hn =>
+    simp only [failOut, Option.some.injEq] at ha
+    exact Or.inr (Or.inl (hnv _ _ _ hn ha))
+  | notFound id1 calls t1 _ hr _ _ => simp [failOut] at ha
+  | createFailed id1 calls t1 c _ hr _ _ hn =>
+    simp only [failOut, Option.some.injEq] at ha
+    exact Or.inr (Or.inl (hnv _ _ _ hn ha))
+  | updated id1 calls t1 it new _ _ _ _ _ =>
+    exfalso; revert ha; unfold Spec.commit; cases wr.writeTime <;> simp
+  | created id1 calls t1 new _ _ _ _ _ =>
+    exfalso; revert ha; unfold Spec.commit; cases wr.writeTime <;> simp
+
+/-- One caller at a time: a Value.Set never answers `Aborted` of its own, and a Collection.Delete
+never exhausts its retries (`Unavailable`), unless that is the code the caller's own check returned. -/
+theorem C01_seq_delete_no_retry (cfg : Cfg M K R) (h : EqRefl cfg.ops) (s : CState M R) (id : String)
+    (wr : WriteReq M K) (ha : (Coll.delete cfg s id wr).1.err = some .unavailable) :
+    ∃ chk old, wr.expectedCheck = some chk ∧ chk old = some .unavailable := by
+  have he := coll_delete_eq cfg h s id wr
+  rw [he.1] at ha
+  unfold Spec.delete at ha
+  simp only [] at ha
+  cases hl : (abs s).m (icptId cfg id) with
+  | none => simp only [hl] at ha; cases hq : wr.allowMissing <;> simp [hq, failOut] at ha
+  | some it =>
+    simp only [hl] at ha
+    cases hchk : wr.expectedCheck with
+    | none =>
+      simp only [hchk] at ha
+      cases hev : wr.expectedValue with
+      | none => simp [hev] at ha
+      | some ev => cases hq : cfg.ops.eq it.body ev <;> simp [hev, hq, failOut] at ha
+    | some chk =>
+      simp only [hchk] at ha
+      cases hc : chk (some it.body) with
+      | some e => simp only [hc, failOut, Option.some.injEq] at ha; exact ⟨chk, _, rfl, by rw [hc, ha]⟩
+      | none =>
+        simp only [hc] at ha
+        cases hev : wr.expectedValue with
+        | none => simp [hev] at ha
+        | some ev => cases hq : cfg.ops.eq it.body ev <;> simp [hev, hq, failOut] at ha
+
+/-! ## Non-vacuity -/
+
+/-- the hypothesis `EqRefl` holds for the concrete message operations the driver runs -/
+example : EqRefl flatOps := fun m => by simp [flatOps]
+
+/-- the interceptor hypotheses of `C01_genid` hold for a collection without id interceptor -/
+example (cfg : Cfg M K R) (hc : cfg.icpt = none) :
+    (∀ x, icptId cfg x = x) ∧ (∀ x, x ≠ "" → icptId cfg x ≠ "") := by
+  simp [icptId, hc]
+
+def exCfg : Cfg Msg Mask (List Nat) := { ops := flatOps, gen := flatGen }
+
+/-- a 7-call script: generated-id create, create, masked update, failed precondition, delete, failing
+delete, list — the codes the model answers with -/
+def exScript : List (COp Msg Mask) :=
+  [ .add "" ⟨1, "", none⟩ { genEmptyID := true, idCb := true },
+    .add "b" ⟨2, "x", none⟩ {},
+    .update "b" ⟨7, "y", none⟩ { updateMask := some [.a] },
+    .update "b" ⟨9, "", none⟩ { expectedValue := some ⟨2, "x", none⟩ },
+    .delete "b" {},
+    .delete "b" {},
+    .list {} ]
+
+def errOf : CRes Msg → Option Code
+  | .wrote o => o.err
+  | _ => none
+
+example : ((Coll.run exCfg (Coll.init exCfg [] []) exScript).1.map errOf) =
+    [none, none, none, some .failedPrecondition, none, some .notFound, none] := by decide
+
+example : (Coll.list exCfg (Coll.run exCfg (Coll.init exCfg [] []) (exScript.take 3)).2 {}) =
+    [⟨1, "", none⟩, ⟨7, "x", none⟩] := by decide
+
 end ScVerif.C01
